@@ -191,6 +191,17 @@ CLAIMS = {
         "Trusted: rustc / driver / engine; arrow take_record_batch selects exactly the given indices; big-endian i64 decoding of the split point.",
         "static analysis: MIR comparison-edge dominance (normalised), value provenance across tuple positions and index constants, switch-edge tables",
         "DESIGN.md §3 C15"),
+    "C18": (
+        "R1 extract_predicates_from_expr hands its conjunctive list to itself only under AND (match-arm and matches! forms), expr_to_predicate builds And/Or from both "
+        "?-propagated sides; R2 mirror table for reversed operands, identity table SQL operator -> predicate, and for strings / integers / floats the table predicate X "
+        "-> `row X literal` (operand order normalised), the merge-point cut clears a row only on an edge implying ts < merge point; R6 mask algebra: And narrows the "
+        "incoming mask twice, Or evaluates both sides on copies of the incoming mask and stores left || right, Not only clears rows still set; R3 each TopicFilter "
+        "variant's arm has its reference meaning (membership by contains, order-independent) and FilteredReceiver::recv returns a batch only on the true edge of "
+        "matches; R4 every client send fed by the ingester broadcast (followed through tokio::select!) carries QueryFilter::apply's output, not the received batch; "
+        "R5 a failed column down-cast must not leave the mask untouched (KNOWN FINDING). Not decided: delivery order / lag, arrow filter kernels.",
+        "Trusted: rustc typed HIR / MIR, driver, engine; sqlparser's AST; the reference tables in rules/C18.py; subscribers keep up with the channel (stated).",
+        "static analysis: typed-HIR variant/operator tables, MIR comparison-edge dominance, value provenance through select!",
+        "DESIGN.md §3 C18"),
 }
 
 NOT_YET = "rule set under construction in this round; see DESIGN.md §3 for the planned static rules"
